@@ -201,6 +201,25 @@ def cache_guard_rule(model: Model, run: Run, folder: Folder) -> None:
                 excluded.add(v if v is not UNKNOWN else m_.group(1))
     missing = popped - excluded
     run.check(bool(store) and bool(popped) and not missing, un.qualname, 'caching guard excludes %s; consumers pop %s' % (sorted(map(str, excluded)), sorted(map(str, popped))), un.loc(store[0]) if store else un.loc(), 'attribute code(s) %s are popped from the returned collection by _parse_payload but a collection holding them can be cached: the first decode strips the shared object and the next identical block loses those routes' % sorted(map(str, missing)))
+    # key and value of the one-entry memo move together
+    from ..cfg import CFG as _CFG
+
+    cfg_u = _CFG(un.node)
+    keyw = [n for n in walk_no_nested(un.node) if isinstance(n, ast.Assign) and dotted(n.targets[0]) in ('cls.previous', 'cls.previous_negotiated')]
+    valw = [n for n in walk_no_nested(un.node) if isinstance(n, ast.Assign) and dotted(n.targets[0]) == 'cls.cached']
+    vt = {cfg_u.node_of(n).id for n in valw if cfg_u.node_of(n) is not None}
+    bad_k = None
+    for k_ in keyw:
+        kn = cfg_u.node_of(k_)
+        if kn is None:
+            continue
+        for succ, lab in kn.succ:
+            if lab == 'exc' or succ in vt:
+                continue
+            passed, wit = cfg_u.all_paths_pass(succ, vt, {cfg_u.exit.id, cfg_u.raise_exit.id})
+            if not passed:
+                bad_k = bad_k or (k_, wit)
+    run.check(bool(keyw) and bool(valw) and bad_k is None, un.qualname, 'the memo key (previous, previous_negotiated) is never updated without the memo value (cached)', un.loc(bad_k[0]) if bad_k else un.loc(), 'a path leaves unpack with the key rewritten and the value untouched (%s): the next identical block is served the collection of an OLDER block' % (' -> '.join(cfg_u.describe_path(bad_k[1])[-5:]) if bad_k else ''))
     # also: the marker short-cut returns before caching
     taw = [n for n in walk_no_nested(un.node) if isinstance(n, ast.If) and 'INTERNAL_TREAT_AS_WITHDRAW' in norm(n.test)]
     run.check(bool(taw) and store and taw[0].lineno < store[0].lineno and isinstance(taw[0].body[-1], ast.Return), un.qualname, 'treat-as-withdraw collections are not cached', un.loc(), 'a malformed block must not be served from the cache')
